@@ -378,8 +378,15 @@ func (s *Scheduler) WaitParkedOr(name string, fin func() bool) (string, bool) {
 	}
 }
 
-// Kick wakes waiters so they re-evaluate their fin() condition.
-func (s *Scheduler) Kick() { s.cond.Broadcast() }
+// Kick wakes waiters so they re-evaluate their fin() condition. The flag fin() reads is changed
+// outside the scheduler's mutex, so the mutex is taken here: a waiter is then either before its
+// check (and sees the new value) or already registered in Wait (and gets the broadcast) — without
+// it the wake-up could fall between the two and be lost (a hang of the proto stream under load).
+func (s *Scheduler) Kick() {
+	s.mu.Lock()
+	s.mu.Unlock() //nolint:staticcheck // empty critical section on purpose
+	s.cond.Broadcast()
+}
 
 // Step releases the parked request of the client and waits until it was served.
 func (s *Scheduler) Step(name string) {
